@@ -6,6 +6,7 @@
 #include <cstdlib>
 #include <cstring>
 #include <unistd.h>
+#include <sys/time.h>
 
 namespace sim {
 
@@ -45,15 +46,36 @@ void Sim::reset() {
   clock_step_ns = 1000000; clock_yield_ns = 1000;
   alloc_cap = (size_t)256 << 20; alloc_fail_nth = -1;
   max_yields = 1000000;
+  { static const double env_cpu = [] { const char* e = ::secure_getenv("VERIF_CPU_BUDGET_S"); return e ? atof(e) : 0.0; }(); cpu_budget_s = env_cpu > 0 ? env_cpu : 20.0; }
+  { static const long env_max = [] { const char* e = ::secure_getenv("VERIF_MAX_ALLOCS"); return e ? atol(e) : 0L; }(); max_allocs = env_max > 0 ? (uint64_t)env_max : 10000000; }
   seq = 0; yields = 0; clock_ns = clock_start_ns = 1000000000LL; hash = 1469598103934665603ULL;
   history.clear(); occ.clear(); fired.clear();
-  large_allocs = 0; exited = false; exit_code = 0; step_budget_exceeded = false;
+  large_allocs = 0; allocs = 0; exited = false; exit_code = 0; step_budget_exceeded = false;
   signals_delivered = 0; in_signal = 0;
   exit_jmp = nullptr;
 }
 
-void Sim::begin() { active = true; }
-void Sim::end() { active = false; }
+// A run that spins without ever reaching a yield point or an allocation is bounded by CPU time
+// (ITIMER_VIRTUAL counts this process's user CPU, so machine load does not matter).  The handler
+// jumps back to the harness like a simulated exit; the interrupted code may have held a lock, so
+// the worker reports the run (verdict HANG through step_budget_exceeded) and then retires.
+static void on_cpu_budget(int) {
+  if (!g.active || !g.exit_jmp || g.step_budget_exceeded) return;
+  g.step_budget_exceeded = true; g.tainted = true; g.exited = true; g.exit_code = 99;
+  siglongjmp(*g.exit_jmp, 1);
+}
+static void arm_cpu_timer(double s) {
+  struct itimerval it; memset(&it, 0, sizeof it);
+  it.it_value.tv_sec = (time_t)s; it.it_value.tv_usec = (suseconds_t)((s - (double)(time_t)s) * 1e6);
+  setitimer(ITIMER_VIRTUAL, &it, nullptr);
+}
+void Sim::begin() {
+  static bool installed = false;
+  if (!installed) { struct sigaction sa; memset(&sa, 0, sizeof sa); sa.sa_handler = on_cpu_budget; sigemptyset(&sa.sa_mask); sa.sa_flags = SA_NODEFER; sigaction(SIGVTALRM, &sa, nullptr); installed = true; }
+  active = true;
+  if (cpu_budget_s > 0) arm_cpu_timer(cpu_budget_s);
+}
+void Sim::end() { active = false; arm_cpu_timer(0); }
 
 void Sim::event(const std::string& e) {
   ++seq;
